@@ -2,14 +2,24 @@
 """Writes MANIFEST.json from the table below (kept in one place so it stays valid)."""
 import json
 
-CLAIMED = {
-    "C08": dict(
-        text="Proof: Lean theorems split_join / split_join_atom / no_sep_is_atom / list_has_sep / escape_inert / escape_single_pass over a hand model of CellParser for all strings and all two-level lists (unbounded); tied to the code by an exhaustive differential run (all strings ≤6/≤8 symbols over a 7-letter alphabet, all small nested lists, random long unicode strings) and by T1 constants regenerated from the source.",
-        ref="§5 C08",
-        note="Trusts: Lean kernel (axioms ⊆ propext/Quot.sound/Classical.choice, audited each run), the differential harness and Driver JSON codec, CPython str.strip/replace as modelled, Jinja2 for the escape-filter oracle. U+0001 excluded by hypothesis (known finding F-C08-a).",
-        technique="Lean 4 proof (induction on strings; transparent-piece lemma) + exhaustive model/code correspondence",
-    ),
-}
+import importlib
+import os
+import sys
+
+sys.path.insert(0, os.path.dirname(os.path.abspath(__file__)))
+CLAIMED = {}
+for f in sorted(os.listdir("harness/props")):
+    if f.startswith("c") and f.endswith(".py"):
+        # read the MANIFEST dict without importing rpft: the dict is a pure literal
+        import ast
+        tree = ast.parse(open(os.path.join("harness/props", f)).read())
+        for n in tree.body:
+            if isinstance(n, ast.Assign) and any(isinstance(t, ast.Name) and t.id == "MANIFEST" for t in n.targets):
+                v = n.value
+                if isinstance(v, ast.Call):
+                    CLAIMED[f[:-3].upper()] = {k.arg: ast.literal_eval(k.value) for k in v.keywords}
+                else:
+                    CLAIMED[f[:-3].upper()] = ast.literal_eval(v)
 
 NOT_YET = {}
 
